@@ -93,15 +93,14 @@ Proof. destruct (reachable_R ops) as [_ HR]. apply (r_good _ _ HR). Qed.
 Lemma s_mk_obs_ub c sc s ok : oub (mk_obs store s_obs c sc s ok) = false.
 Proof. reflexivity. Qed.
 
+Ltac split_pairs := repeat (match goal with |- context [match ?x with (_, _) => _ end] => destruct x end).
+
 Lemma s_step_ub st o : oub (snd (s_step st o)) = false.
 Proof.
   destruct st as [sc s]. unfold s_step.
-  destruct o as [lbl np prog args|r|r|r|r|a b|a b|dt| |]; cbn [step_op]; try reflexivity.
-  - destruct (s_begin lbl s) as [s1 t]. destruct lbl.
-    + destruct (run_st store s_end s_kill s_noop s_noop s_spawn s_spawned sc s1 t _ _ _ _) as [sa s2].
-      destruct (resume store s_end s_kill s_noop s_noop s_noop s_spawn s_spawned (weight sa) sa _) as [[sc3 s3] ok]. reflexivity.
-    + reflexivity.
-  - destruct (resume store s_end s_kill s_noop s_noop s_noop s_spawn s_spawned _ _ s) as [[sc3 s3] ok]. reflexivity.
+  destruct o as [lbl np pt prog args|r|r|r|r|a b|a b|dt| |]; cbn [step_op]; try reflexivity.
+  - destruct (s_begin lbl s) as [s1 t]. destruct lbl; [|reflexivity]. split_pairs. reflexivity.
+  - split_pairs. reflexivity.
 Qed.
 
 Theorem never_ub ops : forall ob, In ob (run ops) -> oub ob = false.
@@ -113,9 +112,9 @@ Proof.
 Qed.
 
 (* ---- label not found ------------------------------------------------------------------------------ *)
-Theorem label_not_found_leaves_nothing sc (m : mheap) np prog args :
-  let st' := fst (m_step (sc, m) (OCall false np prog args)) in
-  let ob := snd (m_step (sc, m) (OCall false np prog args)) in
+Theorem label_not_found_leaves_nothing sc (m : mheap) np pt prog args :
+  let st' := fst (m_step (sc, m) (OCall false np pt prog args)) in
+  let ob := snd (m_step (sc, m) (OCall false np pt prog args)) in
   let h := fst m in let h' := fst (snd st') in
   fst st' = sc /\ snd (snd st') = snd m /\ hc h' = hc h /\ vms h' = vms h /\ locs h' = locs h /\
   tcall h' = tcall h /\ tmps h' = tmps h /\
@@ -124,8 +123,8 @@ Theorem label_not_found_leaves_nothing sc (m : mheap) np prog args :
   onth ob = (length (pend sc) + length (paused sc))%nat.
 Proof. destruct m as [h v]. cbn. repeat split. Qed.
 
-Theorem label_not_found_spec sc s np prog args :
-  let st' := fst (s_step (sc, s) (OCall false np prog args)) in
+Theorem label_not_found_spec sc s np pt prog args :
+  let st' := fst (s_step (sc, s) (OCall false np pt prog args)) in
   fst st' = sc /\ alive (snd st') = alive s /\ done (snd st') = done s /\ slocs (snd st') = slocs s /\
   srecs (snd st') = srecs s ++ [(snrec s, mkSRec args None)].
 Proof. cbn. repeat split. Qed.
@@ -319,7 +318,7 @@ Section SInv.
   Lemma s_run_simple_inv sc s t steps f : P s -> P (snd (run_simple store s_end s_kill s_noop sc s t steps f)).
   Proof.
     intro HP. unfold run_simple, park. destruct steps as [|[d|d|w hp] rest]; cbn [snd]; try exact HP.
-    destruct f as [[d|j|]| | |d|d| | |n|]; cbn [snd]; try exact HP; auto using P_kill.
+    destruct f as [[d|j| |k]| | |d|d| | |n|]; cbn [snd]; try exact HP; auto using P_kill.
   Qed.
 
   Lemma s_run_st_inv subs : forall sc s t pre post f, P s ->
@@ -361,7 +360,7 @@ Section SInv.
       destruct (frame sc <? wdue (min_w x r)); cbn [fst snd]; auto.
     - destruct (pend sc) as [|x r]; cbn [fst snd]; auto.
       destruct (frame sc <? wdue (min_w x r)); cbn [fst snd]; auto.
-      pose proof (s_run_thr_inv (mkSched (remove_w (wseq (min_w x r)) (x :: r)) (paused sc) (frame sc) (clock sc) (sseq sc))
+      pose proof (s_run_thr_inv (mkSched (remove_w (wseq (min_w x r)) (x :: r)) (paused sc) (frame sc) (clock sc) (sseq sc) (lvars sc))
                                 s (wthr (min_w x r)) HP) as H1.
       destruct (run_thr store s_end s_kill s_noop s_noop s_noop s_spawn s_spawned _ s (wthr (min_w x r))) as [sa sb]. cbn [snd] in H1. now apply IH.
   Qed.
@@ -411,7 +410,7 @@ Qed.
 Lemma s_run_simple_stmps sc x t steps f : stmps (snd (run_simple store s_end s_kill s_noop sc x t steps f)) = stmps x.
 Proof.
   unfold run_simple, park. destruct steps as [|[d|d|w hp] rest]; cbn [snd]; try reflexivity.
-  destruct f as [[d|j|]| | |d|d| | |n|]; cbn [snd]; try reflexivity; auto using stmps_end; unfold s_kill; apply stmps_end.
+  destruct f as [[d|j| |k]| | |d|d| | |n|]; cbn [snd]; try reflexivity; auto using stmps_end; unfold s_kill; apply stmps_end.
 Qed.
 
 Lemma s_run_st_stmps subs : forall sc x t pre post f,
@@ -451,7 +450,7 @@ Proof.
     destruct (frame sc <? wdue (min_w y r)); reflexivity.
   - destruct (pend sc) as [|y r]; cbn [fst snd]; auto.
     destruct (frame sc <? wdue (min_w y r)); cbn [fst snd]; auto.
-    pose proof (s_run_thr_stmps (mkSched (remove_w (wseq (min_w y r)) (y :: r)) (paused sc) (frame sc) (clock sc) (sseq sc))
+    pose proof (s_run_thr_stmps (mkSched (remove_w (wseq (min_w y r)) (y :: r)) (paused sc) (frame sc) (clock sc) (sseq sc) (lvars sc))
                                 x (wthr (min_w y r))) as H1.
     destruct (run_thr store s_end s_kill s_noop s_noop s_noop s_spawn s_spawned _ x (wthr (min_w y r))) as [sa sb]. cbn [snd] in H1.
     now rewrite IH.
@@ -463,19 +462,21 @@ Proof.
   destruct ((t0 <? u) && _); repeat split; auto.
 Qed.
 
-Theorem result_sync ops np r args : r <> RLocal ->
+Theorem result_sync ops np r args : r <> RLocal -> (forall k, r <> RLevel k) ->
   let d := eval_res (bind np args) r in
-  let ob := obs_after ops (OCall true np [mkLevel [] [] (FEnd r)] args) in
+  let ob := obs_after ops (OCall true np [] [mkLevel [] [] (FEnd r)] args) in
   ocall ob = COk false (bind np args) /\
   exists pre k, orecs ob = pre ++ [(k, map TD args ++ slot_toks d)].
 Proof.
-  intro Hr. cbn zeta. rewrite obs_after_spec. destruct (reachable_R ops) as [_ HR].
+  intros Hr Hr2. cbn zeta. rewrite obs_after_spec. destruct (reachable_R ops) as [_ HR].
   destruct (s_final s_init ops) as [sc s]. cbn [snd] in HR.
   set (d := eval_res (bind np args) r).
   unfold s_step. cbn [step_op tl lpre lpost lfin run_st]. unfold s_begin, s_thread_begin.
   set (t := sncall s).
   set (s1 := mkStore (alive s ++ [t]) (done s) (slocs s) (stcall s ++ [(t, t)]) (srecs s) (snrec s) (t + 1) (t :: stmps s)).
-  assert (Eres : resolve (bind np args) (FEnd r) = FEnd (RLit d)) by (destruct r; [reflexivity|reflexivity|contradiction]).
+  assert (Eres : resolve (bind np args) (FEnd r) = FEnd (RLit d)).
+  { destruct r as [d0|j| |k]; [reflexivity|reflexivity|contradiction|exfalso; now apply (Hr2 k)]. }
+  set (sc0 := mkSched (pend sc) (paused sc) (frame sc) (clock sc) (sseq sc) (lvars sc)).
   rewrite Eres. cbn [run_simple].
   assert (Hmem : memN t (alive s1) = true) by (apply memN_in; cbn; apply in_or_app; right; now left).
   set (s2 := s_end t (EVal d) s1).
@@ -491,9 +492,9 @@ Proof.
   { intros t0 c x [H1 H2]. split; [now apply value_inv_spawned|]. unfold s_spawned.
     destruct (stmps x) as [|u rest]; [exact H2|]. destruct ((t0 <? u) && _); exact H2. }
   change (s_noop t s2) with s2.
-  pose proof (s_resume_inv P P_end P_spawn P_spawned (weight sc) sc s2 P2) as P3.
-  pose proof (s_resume_stmps (weight sc) sc s2) as T3.
-  destruct (resume store s_end s_kill s_noop s_noop s_noop s_spawn s_spawned (weight sc) sc s2) as [[sc3 s3] ok]. cbn [fst snd] in P3, T3.
+  pose proof (s_resume_inv P P_end P_spawn P_spawned (weight sc0) sc0 s2 P2) as P3.
+  pose proof (s_resume_stmps (weight sc0) sc0 s2) as T3.
+  destruct (resume store s_end s_kill s_noop s_noop s_noop s_spawn s_spawned (weight sc0) sc0 s2) as [[sc3 s3] ok]. cbn [fst snd] in P3, T3.
   destruct P3 as [(D3 & A3 & R3 & N3) _]. rewrite T2 in T3.
   unfold s_finish. rewrite T3, D3. cbn [snd mk_obs].
   unfold mk_obs, s_obs, s_alive. cbn [ocall orecs alive done srecs snrec sncall].
@@ -537,17 +538,18 @@ Proof.
     intro H. apply (r_pending _ _ HR) in H. congruence. }
   pose proof (val_inv_end t v) as P_end. pose proof (val_inv_spawn t v) as P_spawn.
   pose proof (val_inv_spawned t v) as P_spawned.
-  unfold s_step. destruct o as [lbl np prog args|r|r|r|r|a b|a b|dt| |]; cbn [step_op].
+  unfold s_step. destruct o as [lbl np pt prog args|r|r|r|r|a b|a b|dt| |]; cbn [step_op].
   - unfold s_begin. destruct lbl.
     + assert (P1 : P (fst (s_thread_begin (sncall s) s))).
       { destruct P0 as [[H1 H2] H3]. unfold s_thread_begin. cbn [fst]. split; [split|]; cbn [done alive sncall]; auto; [|lia].
         intro H. apply in_app_or in H. destruct H as [H|[E|[]]]; [contradiction|lia]. }
       destruct (s_thread_begin (sncall s) s) as [s1 t1]. cbn [fst] in P1.
-      pose proof (s_run_st_inv P P_end P_spawn P_spawned (tl prog) sc s1 t1
-                    (lpre match prog with l :: _ => l | [] => mkLevel [] [] FFall end)
-                    (lpost match prog with l :: _ => l | [] => mkLevel [] [] FFall end)
-                    (resolve (bind np args) (lfin match prog with l :: _ => l | [] => mkLevel [] [] FFall end)) P1) as P2.
-      destruct (run_st store s_end s_kill s_noop s_noop s_spawn s_spawned sc s1 t1 _ _ _ _) as [sa s2]. cbn [snd] in P2.
+      match goal with |- context [match ?x with (_, _) => _ end] =>
+        match x with context [prologue] => destruct x as [[params locvals] lv] end end.
+      match goal with |- context [run_st store s_end s_kill s_noop s_noop s_spawn s_spawned ?a ?b ?c ?d ?e ?f ?g] =>
+        pose proof (s_run_st_inv P P_end P_spawn P_spawned e a b c d f g P1) as P2;
+        destruct (run_st store s_end s_kill s_noop s_noop s_spawn s_spawned a b c d e f g) as [sa s2] end.
+      cbn [snd] in P2.
       pose proof (s_resume_inv P P_end P_spawn P_spawned (weight sa) sa s2 P2) as P3.
       destruct (resume store s_end s_kill s_noop s_noop s_noop s_spawn s_spawned (weight sa) sa _) as [[sc3 s3] ok]. cbn [fst snd] in *.
       unfold s_finish. destruct P3 as [[H1 _] _]. destruct (stmps s3); cbn [done]; exact H1.
@@ -561,8 +563,8 @@ Proof.
   - cbn [fst snd]. unfold s_massign. destruct (a =? b); [exact Hx|].
     destruct (sslot_of a s), (sslot_of b s); exact Hx.
   - exact Hx.
-  - pose proof (s_resume_inv P P_end P_spawn P_spawned (weight (mkSched (pend sc) (paused sc) (clock sc) (clock sc) (sseq sc)))
-                             (mkSched (pend sc) (paused sc) (clock sc) (clock sc) (sseq sc)) s P0) as P3.
+  - pose proof (s_resume_inv P P_end P_spawn P_spawned (weight (mkSched (pend sc) (paused sc) (clock sc) (clock sc) (sseq sc) (lvars sc)))
+                             (mkSched (pend sc) (paused sc) (clock sc) (clock sc) (sseq sc) (lvars sc)) s P0) as P3.
     destruct (resume store s_end s_kill s_noop s_noop s_noop s_spawn s_spawned _ _ s) as [[sc3 s3] ok]. cbn [fst snd] in *. apply P3.
   - cbn [fst snd]. unfold s_reset. apply (s_kill_all_inv P P_end (alive s) s P0).
 Qed.
@@ -708,7 +710,7 @@ Proof.
 Qed.
 
 Lemma w_fin_resolve params f : w_fin (resolve params f) = w_fin f.
-Proof. destruct f as [[d|j|]| | |d|d| | |n|]; reflexivity. Qed.
+Proof. destruct f as [[d|j| |k]| | |d|d| | |n|]; reflexivity. Qed.
 
 Section Fuel.
   Variable H : Type.
@@ -738,7 +740,7 @@ Section Fuel.
     (weight (fst (run_simple H h_end h_kill h_suspend s h t steps f)) <= weight s + w_steps steps + w_fin f)%nat.
   Proof.
     unfold run_simple. destruct steps as [|[d|d|w hp] rest].
-    - destruct f as [[d|j|]| | |d|d| | |n|]; cbn [fst]; try (wsimp; lia).
+    - destruct f as [[d|j| |k]| | |d|d| | |n|]; cbn [fst]; try (wsimp; lia).
       + pose proof (weight_park (add_wait s d (THelper t true)) h t None (mkTS [] [] [] FNever)) as Hp. revert Hp. wsimp. lia.
       + pose proof (weight_park (add_wait s d (THelper t true)) h t (Some 50) (mkTS [] [] [] FNever)) as Hp. revert Hp. wsimp. lia.
       + pose proof (weight_park s h t None (mkTS [] [] [] FNever)) as Hp. revert Hp. wsimp. lia.
@@ -835,7 +837,7 @@ Section Fuel.
     - destruct (pend s) as [|x r] eqn:Ep; [reflexivity|].
       destruct (frame s <? wdue (min_w x r)); [reflexivity|].
       set (m := min_w x r).
-      set (s1 := mkSched (remove_w (wseq m) (x :: r)) (paused s) (frame s) (clock s) (sseq s)).
+      set (s1 := mkSched (remove_w (wseq m) (x :: r)) (paused s) (frame s) (clock s) (sseq s) (lvars s)).
       pose proof (run_thr_weight s1 h (wthr m)) as Hr.
       destruct (run_thr H h_end h_kill h_exec h_suspend h_tail h_spawn h_spawned s1 h (wthr m)) as [s2 h2]. cbn [fst] in Hr.
       apply IH.
@@ -847,14 +849,17 @@ End Fuel.
 Lemma s_step_hang st o : ohang (snd (s_step st o)) = false.
 Proof.
   destruct st as [sc s]. unfold s_step.
-  destruct o as [lbl np prog args|r|r|r|r|a b|a b|dt| |]; cbn [step_op]; try reflexivity.
+  destruct o as [lbl np pt prog args|r|r|r|r|a b|a b|dt| |]; cbn [step_op]; try reflexivity.
   - destruct (s_begin lbl s) as [s1 t]. destruct lbl.
-    + destruct (run_st store s_end s_kill s_noop s_noop s_spawn s_spawned sc s1 t _ _ _ _) as [sa s2].
-      pose proof (resume_ok store s_end s_kill s_noop s_noop s_noop s_spawn s_spawned (weight sa) sa s2 (le_n _)) as Hok.
-      destruct (resume store s_end s_kill s_noop s_noop s_noop s_spawn s_spawned (weight sa) sa _) as [[sc3 s3] ok]. cbn [snd] in Hok. subst ok.
+    + match goal with |- context [match ?x with (_, _) => _ end] =>
+        match x with context [prologue] => destruct x as [[params locvals] lv] end end.
+      match goal with |- context [run_st store s_end s_kill s_noop s_noop s_spawn s_spawned ?a ?b ?c ?d ?e ?f ?g] =>
+        destruct (run_st store s_end s_kill s_noop s_noop s_spawn s_spawned a b c d e f g) as [sa s2] end.
+      pose proof (resume_ok store s_end s_kill s_noop s_noop s_noop s_spawn s_spawned (weight sa) sa (s_noop t s2) (le_n _)) as Hok.
+      destruct (resume store s_end s_kill s_noop s_noop s_noop s_spawn s_spawned (weight sa) sa (s_noop t s2)) as [[sc3 s3] ok]. cbn [snd] in Hok. subst ok.
       unfold mk_obs. destruct (s_obs _) as [[a b] c]. reflexivity.
     + unfold mk_obs. destruct (s_obs _) as [[a b] c]. reflexivity.
-  - pose proof (resume_ok store s_end s_kill s_noop s_noop s_noop s_spawn s_spawned _ (mkSched (pend sc) (paused sc) (clock sc) (clock sc) (sseq sc)) s (le_n _)) as Hok.
+  - pose proof (resume_ok store s_end s_kill s_noop s_noop s_noop s_spawn s_spawned _ (mkSched (pend sc) (paused sc) (clock sc) (clock sc) (sseq sc) (lvars sc)) s (le_n _)) as Hok.
     destruct (resume store s_end s_kill s_noop s_noop s_noop s_spawn s_spawned _ _ s) as [[sc3 s3] ok]. cbn [snd] in Hok. subst ok.
     unfold mk_obs. destruct (s_obs _) as [[a b] c]. reflexivity.
 Qed.
@@ -903,7 +908,7 @@ Section Due.
   Lemma run_simple_frame s h t steps f : frame (fst (run_simple H h_end h_kill h_suspend s h t steps f)) = frame s.
   Proof.
     unfold run_simple. destruct steps as [|[d|d|w hp] rest]; rewrite ?frame_park, ?frame_start_helper; try reflexivity.
-    destruct f as [[d|j|]| | |d|d| | |n|]; rewrite ?frame_park; reflexivity.
+    destruct f as [[d|j| |k]| | |d|d| | |n|]; rewrite ?frame_park; reflexivity.
   Qed.
 
   Lemma run_st_frame subs : forall s h t pre post f,
@@ -945,7 +950,7 @@ Section Due.
       destruct (N.ltb_spec (frame s) (wdue (min_w x r))) as [Hlt|Hge]; cbn [fst].
       + split; [reflexivity|]. rewrite Ep. intros w Hin. pose proof (min_w_le r x w Hin). lia.
       + set (m := min_w x r).
-        set (s1 := mkSched (remove_w (wseq m) (x :: r)) (paused s) (frame s) (clock s) (sseq s)).
+        set (s1 := mkSched (remove_w (wseq m) (x :: r)) (paused s) (frame s) (clock s) (sseq s) (lvars s)).
         pose proof (run_thr_weight H h_end h_kill h_exec h_suspend h_tail h_spawn h_spawned s1 h (wthr m)) as Hr.
         pose proof (run_thr_frame s1 h (wthr m)) as Hf.
         destruct (run_thr H h_end h_kill h_exec h_suspend h_tail h_spawn h_spawned s1 h (wthr m)) as [s2 h2]. cbn [fst] in Hr, Hf.
@@ -973,3 +978,23 @@ Definition protocol (mc : ch -> N -> ch * N) (d : dval) : ch :=
   let c3 := copy_assign (new_pointer c2 tm 0) rc tm in
   let '(c4, sc) := mc c3 tm in
   set_value_ref (destroy c4 tm) 0 d rc.
+
+(* ---- the prologue with explicit targets ----------------------------------------------------------- *)
+Lemma prologue_resets k tg loc lv : prologue (PLev k :: tg) [] loc lv = prologue tg [] loc (lset k DNil lv).
+Proof. reflexivity. Qed.
+
+Lemma prologue_dup j a loc lv :
+  read_target (fst (prologue [PLoc j; PLoc j] [a] loc lv)) (snd (prologue [PLoc j; PLoc j] [a] loc lv)) (PLoc j) = DNil.
+Proof. cbn. now rewrite Nat.eqb_refl. Qed.
+
+(* every declared parameter is stored: afterwards a level target reads the argument of its LAST
+   declaration, NIL when there was none *)
+Lemma prologue_last_level k : forall tg args loc lv, ~ In (PLev k) tg ->
+  lget N.eqb k (snd (prologue tg args loc lv)) = lget N.eqb k lv.
+Proof.
+  induction tg as [|x tg IH]; intros args loc lv Hn; [reflexivity|]. cbn [prologue].
+  destruct x as [j|k'].
+  - apply IH. intro H. apply Hn. now right.
+  - rewrite IH by (intro H; apply Hn; now right). unfold lset. cbn [lget].
+    destruct (N.eqb_spec k' k) as [->|]; [exfalso; apply Hn; now left|reflexivity].
+Qed.
